@@ -1162,8 +1162,11 @@ impl<T: Transport, Env: UtpEnvironment> VirtualSocket<T, Env> {
                 // sent must not keep the sequence number our FIN is about to take: the ACK of the FIN
                 // would count as an ACK of their bytes.
                 self.user_tx_segments.discard_unsent();
-                let our_fin = self.seq_nr;
-                self.seq_nr += 1;
+                // The FIN follows the last segment that stays queued. self.seq_nr may be further ahead:
+                // an MTU probe that was popped after being sent gave its number back to the queue, and
+                // a FIN numbered past that gap would never be sent (nor accepted by the remote).
+                let our_fin = self.user_tx_segments.next_seq_nr();
+                self.seq_nr = our_fin + 1;
                 self.state = LastAck {
                     our_fin,
                     remote_fin: hdr.seq_nr,
